@@ -451,7 +451,7 @@ def _alias_rule(prog, chk, R):
                    'an index that a live variable still denotes, and the next declaration shares it' % (
                        site_kind, '' if not FIELD_KIND_PREMISES.get(site_kind) else ', analyser rule "%s" %s' % (FIELD_KIND_PREMISES[site_kind], 'found' if premise else 'NOT found')),
                    key='foreign-field-write:%s' % site_kind)
-    chk.count('writes into object field storage', n, 6)
+    chk.count('writes into object field storage', n, 4)
 
 
 def _is_field_slot(e):
